@@ -1,6 +1,7 @@
 package props
 
 import (
+	"encoding/binary"
 	"errors"
 	"fmt"
 	"io"
@@ -28,6 +29,8 @@ type yieldParser struct {
 	before, after int
 	active, max   atomic.Int64
 	calls         atomic.Int64
+	mu            sync.Mutex
+	parsedXids    []uint32 // transaction ids of the frames for which the parser returned a message
 }
 
 func (p *yieldParser) Parse(b []byte) (util.Message, error) {
@@ -43,6 +46,11 @@ func (p *yieldParser) Parse(b []byte) (util.Message, error) {
 		runtime.Gosched()
 	}
 	msg, err := of.Parse(b)
+	if err == nil && !isNil(msg) && len(b) >= 8 {
+		p.mu.Lock()
+		p.parsedXids = append(p.parsedXids, binary.BigEndian.Uint32(b[4:8]))
+		p.mu.Unlock()
+	}
 	for i := 0; i < p.after; i++ {
 		runtime.Gosched()
 	}
